@@ -478,6 +478,8 @@ pub fn explore(rep: &Report, prop: &str, th: bool) -> Explored {
         FlushSeq(usize, usize, usize),
         /// boundary-straddling run inputs under a few schedules: (input, cfg)
         Straddle(usize, usize),
+        /// Full flush after the dictionary wrapped, then 1/2/3/all bytes: (input, cfg)
+        WrapFull(usize, usize),
     }
     let chunks_s: Vec<u32> = vec![0, 1, 2, REST];
     let caps_s: Vec<u32> = vec![1, 5, LARGE];
@@ -550,6 +552,23 @@ pub fn explore(rep: &Report, prop: &str, th: bool) -> Explored {
             work.push(Work::Straddle(i, c));
         }
     }
+    let wrapfull = corpus::wrapfull_inputs();
+    let mut wrapfull_cfgs: Vec<Cfg> = vec![];
+    for level in 0..=10u8 {
+        for (strat, zlib, wbits) in [(0u8, false, 15u8), (3, true, 15), (1, false, 15), (0, true, 9), (4, false, 15)] {
+            if !th && !matches!((level, strat), (1, 0) | (2, _) | (6, _) | (9, 0) | (9, 3) | (0, 0) | (4, 1) | (10, 0)) {
+                continue;
+            }
+            wrapfull_cfgs.push(Cfg { level, strat, zlib, wbits, ctor: 0 });
+        }
+    }
+    if prop != "C16" {
+        for i in 0..wrapfull.len() {
+            for c in 0..wrapfull_cfgs.len() {
+                work.push(Work::WrapFull(i, c));
+            }
+        }
+    }
     for i in 0..long.len() {
         for c in 0..cfgs.len().min(if th { 6 } else { 4 }) {
             if !th && (i + c) % 2 != 0 {
@@ -563,7 +582,7 @@ pub fn explore(rep: &Report, prop: &str, th: bool) -> Explored {
     let accs = par_for(work.len(), || Acc { secs: [0.0; 3], stats: Stats::default(), cov: BTreeMap::new(), runs: 0 }, |ix, acc| {
         watchdog::tick(ix as u64, 0);
         let t0 = std::time::Instant::now();
-        let kidx = match work[ix] { Work::Full(..) => 0, Work::DevMed(..) | Work::FlushSeq(..) | Work::Straddle(..) => 1, Work::DevLong(..) => 2 };
+        let kidx = match work[ix] { Work::Full(..) => 0, Work::DevMed(..) | Work::FlushSeq(..) | Work::Straddle(..) => 1, Work::DevLong(..) | Work::WrapFull(..) => 2 };
         match work[ix] {
             Work::Full(i, c, e, a0) => {
                 let m = CompModel { prop, input: &small[i].1, name: &small[i].0, cfg: cfgs[c], entry: entries[e], rep: &rep, chunks: chunks_s.clone(), caps: caps_s.clone(), flushes: flushes_s.clone(), cov: Mutex::new(BTreeMap::new()), ffi_every: 5 };
@@ -670,10 +689,47 @@ pub fn explore(rep: &Report, prop: &str, th: bool) -> Explored {
             Work::Straddle(i, c) => {
                 let m = CompModel { prop, input: &straddle[i].data, name: &straddle[i].name, cfg: straddle_cfgs[c], entry: Entry::Compress, rep: &rep, chunks: vec![], caps: vec![], flushes: vec![], cov: Mutex::new(BTreeMap::new()), ffi_every: 7 };
                 // one-shot, window-sized chunks, chunks ending exactly at / just past the boundary
-                for pol in [Act { k: REST, cap: LARGE, flush: F_NONE }, Act { k: 32768, cap: LARGE, flush: F_NONE }, Act { k: 32777, cap: 1000, flush: F_NONE }, Act { k: 4096, cap: 85195, flush: F_NONE }] {
+                // (and chunk sizes that are not multiples of the compressor's 4096-byte lookahead)
+                for pol in [Act { k: REST, cap: LARGE, flush: F_NONE }, Act { k: 32768, cap: LARGE, flush: F_NONE }, Act { k: 32777, cap: 1000, flush: F_NONE }, Act { k: 4096, cap: 85195, flush: F_NONE }, Act { k: 1000, cap: LARGE, flush: F_NONE }, Act { k: 4097, cap: 100, flush: F_NONE }] {
                     let mut ds = DevSearch::new(&m, pol, vec![], 1_000_000, u64::MAX);
                     ds.run(m.init(), 0);
                     acc.stats.merge(&ds.stats);
+                }
+                acc.runs += 1;
+                for (k, v) in m.cov.lock().unwrap().iter() {
+                    *acc.cov.entry(k).or_insert(0) += v;
+                }
+            }
+            Work::WrapFull(i, c) => {
+                let (inp, cut) = &wrapfull[i];
+                let m = CompModel { prop, input: &inp.data, name: &inp.name, cfg: wrapfull_cfgs[c], entry: Entry::Compress, rep: &rep, chunks: vec![], caps: vec![], flushes: vec![], cov: Mutex::new(BTreeMap::new()), ffi_every: 7 };
+                // [everything up to the cut, Full] then [1 / 2 / 3 / 9 / all bytes, None / Sync / Full] then Finish;
+                // the pre-cut part in one call or in 4096-byte calls
+                for pre in [*cut as u32, 4096] {
+                    for &k in &[1u32, 2, 3, 9, REST] {
+                        for &f in &[F_NONE, F_SYNC, F_FULL] {
+                            let mut st = m.init();
+                            let mut path = vec![];
+                            let mut alive = true;
+                            while alive && st.ip < *cut {
+                                let kk = pre.min((*cut - st.ip) as u32);
+                                let a = Act { k: kk, cap: LARGE, flush: if st.ip + kk as usize == *cut { F_FULL } else { F_NONE } };
+                                path.push(a);
+                                acc.stats.transitions += 1;
+                                alive = m.step(&mut st, a, &path);
+                            }
+                            if alive {
+                                let a = Act { k, cap: LARGE, flush: f };
+                                path.push(a);
+                                acc.stats.transitions += 1;
+                                alive = m.step(&mut st, a, &path);
+                            }
+                            if alive {
+                                m.complete(&mut st, &mut path);
+                            }
+                            acc.stats.executions += 1;
+                        }
+                    }
                 }
                 acc.runs += 1;
                 for (k, v) in m.cov.lock().unwrap().iter() {
@@ -807,7 +863,7 @@ pub fn replay(v: &Value, prop: &str) -> Option<String> {
     let name = v["input_name"].as_str()?.to_string();
     let input = match v["input_hex"].as_str() {
         Some(h) => unhex(h),
-        None => corpus::long_inputs().into_iter().chain(corpus::medium_inputs()).find(|i| i.name == name)?.data,
+        None => corpus::long_inputs().into_iter().chain(corpus::medium_inputs()).chain(corpus::straddle_inputs(true)).chain(corpus::wrapfull_inputs().into_iter().map(|x| x.0)).find(|i| i.name == name)?.data,
     };
     let entry = match v["entry"].as_str()? {
         "Compress" => Entry::Compress,
